@@ -18,7 +18,7 @@ EXPLANATION = (
     "evaluated on the Yosys MRO): R-tr-hooks, R-tr-handlers, R-tr-optable (plus agreement of the Yosys and SV operator tables), "
     "R-tr-assign, R-tr-slice (incl. the Yosys size-cast forms x[msb:0] / zero padding), R-tr-width-cast, R-tr-conn (incl. the "
     "queue discipline of rtlir_tr_connection: first dequeued = writer, second = reader), R-tr-sigexpr, R-tr-for, R-tr-modname, "
-    "R-tr-constcache, R-tr-index-queue, R-tr-dedup-scope, R-tr-loop-state, R-tr-memo-scope, R-tr-ident-intact, R-layout-agree (Yosys struct literals: first field most significant, packed-array element 0 least "
+    "R-tr-constcache, R-tr-index-queue, R-tr-dedup-scope, R-tr-loop-state, R-tr-memo-scope, R-tr-ident-intact, R-tr-name-scope, R-tr-const-inline (the Yosys back-end declares no constants: a constant-array access is inlined or rejected on every path), R-layout-agree (Yosys struct literals: first field most significant, packed-array element 0 least "
     "significant). Flattening rules: R-C12-flatten -- a flat leaf port is connected to [c-1 : c-w] of the packed wire with a "
     "running MSB counter that starts at the struct width, is handed to a field before that field's width is subtracted, decreases "
     "by field.get_length() in declaration order and is asserted to end at 0; packed arrays iterate n-1..0 and advance by "
@@ -42,11 +42,11 @@ ASSUMPTIONS = [
 
 _SHARED = (T.rule_hooks, T.rule_handlers, T.rule_optable, T.rule_assign, T.rule_slice, T.rule_width_cast, T.rule_conn,
            T.rule_sigexpr, T.rule_for, T.rule_modname, T.rule_constcache, T.rule_layout, T.rule_index_queue, T.rule_dedup_scope,
-           T.rule_loop_state, T.rule_memo_scope, T.rule_ident_intact)
+           T.rule_loop_state, T.rule_memo_scope, T.rule_ident_intact, T.rule_name_scope, T.rule_const_inline)
 RULES = [partial(f, backend=BACKEND) for f in _SHARED]
 for _f, _g in zip(RULES, _SHARED):
     _f.__name__ = _g.__name__
-RULES += [T.rule_flatten, T.rule_mangle, T.rule_index_order, T.rule_deq, T.rule_wire_forms]
+RULES += [T.rule_flatten, T.rule_mangle, T.rule_index_order, T.rule_deq, T.rule_wire_forms, T.rule_dispatch]
 
 
 def rule_typecheck_bounds(repo):
@@ -128,6 +128,23 @@ MUTANTS = [
         dict(file=YS4, old='port_wire_id = ( f"{c_id}__{_id}" ).center( 25 )', new='port_wire_id = f"{c_id}__{_id}"', count=1)]),
     _m('port-name-prefix-slice', YS1, 'wire_template = "logic {packed_type: <8} {id_}{array_dim_str};"\n    in_conn_template', 'wire_template = "logic {packed_type: <8} {id_:.30}{array_dim_str};"\n    in_conn_template',
        'R-tr-ident-intact'),
+    # round-5 kinds: evaluation order of state readers, constant arrays, dispatch of the sibling recursions
+    _m('seq-block-loopvars-read-before-visit', YB1, "    upblk = super().visit_SeqUpblk( node )\n    return s.get_loopvars() + upblk", "    return s.get_loopvars() + super().visit_SeqUpblk( node )", 'R-tr-assign'),
+    _m('comb-block-loopvars-read-before-visit', YB1, "    upblk = super().visit_CombUpblk( node )\n    return s.get_loopvars() + upblk", "    return s.get_loopvars() + super().visit_CombUpblk( node )", 'R-tr-assign'),
+    dict(name='const-array-variable-index-emitted-by-name', rule='R-tr-const-inline', edits=[
+        dict(file=YB1, old="      if isinstance( subtype, rt.Const ):\n        nbits = subtype.get_dtype().get_length()\n", new="      if isinstance( subtype, rt.Const ) and hasattr( node, '_value' ):\n        nbits = subtype.get_dtype().get_length()\n", count=1),
+        dict(file=YB1, old="        try:\n          const_value = node._value\n        except AttributeError:\n          raise VerilogTranslationError( s.blk, node,\n            f\"{value} is not an array of constants!\" )\n",
+             new="        const_value = node._value\n", count=1)]),
+    _m('port-map-packed-element-as-vector', T.YS_UTIL, "    if not n_dim:\n      return _mangle_dtype( pname, vname, port, dtype, port_idx )", "    if not n_dim:\n      return _mangle_vector( pname, vname, port, dtype, port_idx )",
+       'R-C12-dispatch'),
+    _m('port-gen-packed-element-as-vector', YS2, "    if not n_dim:\n      return s.dtype_gen( d, id_, dtype )", "    if not n_dim:\n      return s.vector_gen( d, id_, dtype )", 'R-C12-dispatch'),
+    _m('wire-struct-field-as-vector', YS2, '      ret += s.wire_dtype_gen( id_+"__"+name, field, n_dim )', '      ret += s.wire_vector_gen( id_+"__"+name, field, n_dim )', 'R-C12-dispatch'),
+    # re-introductions of the chained-assignment defect on a tree that carries the repair (stale otherwise)
+    _m('chain-copy-reevaluates-rhs', VB1, "    source = targets[-1] if node.blocking else value\n", "    source = value\n", 'R-tr-assign'),
+    _m('chain-copy-also-when-nonblocking', VB1, "    source = targets[-1] if node.blocking else value\n", "    source = targets[-1]\n", 'R-tr-assign'),
+    _m('chain-targets-in-source-order', VB1, "    ) for target in reversed(targets) ]", "    ) for target in targets ]", 'R-tr-assign'),
+    _m('tmpvar-lookup-before-loopvar', T.GEN[2], "      if node.id in s.loop_var_env:\n        ret = bir.LoopVar( node.id )\n      elif node.id in s.tmp_var_env:\n        ret = bir.TmpVar( node.id, s._upblk_name )\n",
+       "      if node.id in s.tmp_var_env:\n        ret = bir.TmpVar( node.id, s._upblk_name )\n      elif node.id in s.loop_var_env:\n        ret = bir.LoopVar( node.id )\n", 'R-tr-name-scope'),
     # shared rules on the Yosys classes
     _m('yosys-assign-direction', YS1, 'return f"assign {rd} = {wr};"', 'return f"assign {wr} = {rd};"', 'R-tr-conn'),
     _m('yosys-part-select-inclusive', YS1, "_stop = stop-1", "_stop = stop", 'R-tr-slice'),
@@ -181,6 +198,8 @@ MUTANTS = [
 ]
 
 EQUIV = [
+    _m('seq-block-visit-result-renamed', YB1, "    upblk = super().visit_SeqUpblk( node )\n    return s.get_loopvars() + upblk", "    blk = super().visit_SeqUpblk( node )\n    decls = s.get_loopvars()\n    return decls + blk"),
+    _m('port-map-struct-field-keyword-free', T.YS_UTIL, "    if not n_dim:\n      return _mangle_dtype( pname, vname, port, dtype, port_idx )", "    if len(n_dim) == 0:\n      return _mangle_dtype( pname, vname, port, dtype, port_idx )"),
     _m('port-binding-padded-by-spec', YS4, 'p_conn_tplt = ".{port_id: <15}( {port_wire_id} )"', 'p_conn_tplt = ".{port_id: <15}( {port_wire_id:^25} )"'),
     _m('ifc-member-array-type-reset-first', YS3, "          if isinstance( _rtype, rt.Array ):\n            array_type = _rtype\n            rtype = _rtype.get_sub_type()\n          else:\n            array_type = None\n            rtype = _rtype\n          ret += s.rtlir_tr_interface_port_decl(",
        "          array_type, rtype = None, _rtype\n          if isinstance( _rtype, rt.Array ):\n            array_type = _rtype\n            rtype = _rtype.get_sub_type()\n          ret += s.rtlir_tr_interface_port_decl("),
